@@ -184,8 +184,20 @@ func (t *translator) contexts() {
 	}
 }
 
+// writerStarted: the writer's opening check ("is the client closed?") is a critical section of its
+// own in some versions of client.go (then it is emitted there) and a lock-free look at the context in
+// others (then nothing is observed): in that case the step is emitted before the writer's first
+// observed action.
+func (t *translator) writerStarted(r *trRole) {
+	if r.wstate == "init" {
+		t.emit(Label{"l": "wCheck", "w": r.tid}, nil)
+		r.wstate = "select"
+	}
+}
+
 // writerExit emits the step by which a writer that sits in its select leaves.
 func (t *translator) writerExit(r *trRole) {
+	t.writerStarted(r)
 	if r.wstate != "select" {
 		return
 	}
@@ -203,7 +215,7 @@ func (t *translator) writerExit(r *trRole) {
 func (t *translator) flushWriters() {
 	var ws []*trRole
 	for _, r := range t.tickets {
-		if r.kind == "writer" && r.wstate == "select" {
+		if r.kind == "writer" && (r.wstate == "select" || r.wstate == "init") {
 			ws = append(ws, r)
 		}
 	}
@@ -234,6 +246,7 @@ func Translate(job Job, evs []Ev, pinned bool) ([]Label, error) {
 			r.touched = true
 			t.emit(Label{"l": "cSend", "c": r.tid, "ok": ok}, snap)
 		case "writer":
+			t.writerStarted(r)
 			t.emit(Label{"l": "wRecv", "w": r.tid, "r": t.run(e.Run)}, nil)
 			t.emit(Label{"l": "wSend", "w": r.tid, "ok": ok}, snap)
 			if !ok {
@@ -406,10 +419,12 @@ func Translate(job Job, evs []Ev, pinned bool) ([]Label, error) {
 				switch e.Fn {
 				case "executeWriteLoop":
 					t.emit(Label{"l": "wCheck", "w": r.tid}, e.Snap)
+					r.wstate = "select"
 					if e.Snap != nil && e.Snap.Done {
+						// found the client closed: the same as leaving the select through the
+						// cancelled context at once
+						t.emit(Label{"l": "wCancel", "w": r.tid}, nil)
 						r.wstate = "gone"
-					} else {
-						r.wstate = "select"
 					}
 				case "sendCBOR":
 				default:
